@@ -223,3 +223,75 @@ def depth_recursions(ctx, rule):
             rows = [(b, v, [c for c in cs if not mock(c)]) for b, v, cs in rows if not any(isinstance(x, tuple) and x[0] == 'field' and x[2] == 'mock_difficulty' for x in walk(v))]
             ctx.check(len(rows) == 1 and not rows[0][2] and want(rows[0][1]), rule, 'atom:' + name.split('::', 1)[1], f,
                       '%s is the target\'s difficulty under the network\'s parameters' % name.rsplit('::', 1)[-1], '%s = %s' % (name, describe_table(rows)))
+
+
+def utxo_tiers(ctx, rule):
+    """C01 (oversized scripts): the stable UTXO store has three tiers chosen by encoded size; insert,
+    get and remove must agree on the tiers (sibling agreement) and insert must choose by the two bounds"""
+    prog = ctx.prog
+    U = 'ic_btc_canister::utxo_set::utxos::Utxos::'
+    tiers = ('small_utxos', 'medium_utxos', 'large_utxos')
+    seen = {}
+    for name in ('insert', 'get', 'remove'):
+        f = ctx.fn(rule, U + name)
+        if not f:
+            return
+        e = ex(prog, f)
+        got = {}
+        for c in f.calls():
+            if c.cleanup or not c.args or (c.short or '').rsplit('::', 1)[-1] != name:
+                continue
+            fld = _root_field(e.operand(c.args[0]))
+            if fld in tiers:
+                got[fld] = c
+        seen[name] = got
+        ctx.check(set(got) == set(tiers), rule, 'utxo-tiers:' + name, f, 'Utxos::%s consults all three tiers (small, medium, large)' % name,
+                  'Utxos::%s consults only %s: outputs stored in another tier are lost to it' % (name, sorted(got)))
+    ins = prog.fn(U + 'insert', required=False)
+    if ins and set(seen.get('insert', {})) == set(tiers):
+        LEN = P.has(P.call('*::to_bytes', P.param('value')))
+        S, M = P.item('UTXO_VALUE_MAX_SIZE_SMALL'), P.item('UTXO_VALUE_MAX_SIZE_MEDIUM')
+        cs = {t: cond_exprs(prog, ins, seen['insert'][t].bb) for t in tiers}
+        ok = (P.exactly(cs['small_utxos'], [P.binop('Le', LEN, S)]) and
+              P.exactly(cs['medium_utxos'], [P.binop('Lt', S, LEN), P.binop('Le', LEN, M)]) and
+              P.exactly(cs['large_utxos'], [P.binop('Lt', S, LEN), P.binop('Lt', M, LEN)]))
+        ctx.check(ok, rule, 'utxo-tiers:insert-bounds', ins, 'insert: encoded size <= SMALL -> small, <= MEDIUM -> medium, else large',
+                  'tier choice of Utxos::insert: %s' % {t: [show(c)[:60] for c in v] for t, v in cs.items()})
+
+
+def chain_with_tip(ctx, rule):
+    """C06/C10/C13: the chain from the anchor to a named block and that block's successors (the page
+    walk replays it; the duplicate test inspects the successors)"""
+    prog = ctx.prog
+    f = ctx.fn(rule, BT + 'BlockTree::get_chain_with_tip_reverse')
+    gc = ctx.fn(rule, BT + 'BlockTree::get_child_blocks')
+    w = ctx.fn(rule, BT + 'BlockTree::get_chain_with_tip')
+    if not (f and gc and w):
+        return
+    e = ex(prog, f)
+    g = cfg(f)
+    rows = table(prog, f)
+    HIT = P.binop('Eq', P.call('*::block_hash', P.field('root', P.param('self'))), P.param('tip'))
+    MISS = P.binop('Ne', P.call('*::block_hash', P.field('root', P.param('self'))), P.param('tip'))
+    NEXT = P.call('*::next', P.has(P.call('core::slice::iter', P.field('children', P.param('self')))))
+    REC = P.call(BT + 'BlockTree::get_chain_with_tip_reverse', P.has(P.downcast('Some', NEXT)), P.param('tip'))
+    here = [r for r in rows if P.agg(variant='Some', _0=P.agg(_1=P.call(BT + 'BlockTree::get_child_blocks', P.param('self'))))(r[1]) and P.exactly(r[2], [HIT])]
+    none = [r for r in rows if P.agg(variant='None')(r[1]) and P.exactly(r[2], [MISS, P.is_(NEXT, 'None')])]
+    below = [r for r in rows if P.agg(variant='Some')(r[1]) and P.has(REC)(r[1]) and P.exactly(r[2], [MISS, P.is_(NEXT, 'Some'), P.is_(REC, 'Some')])]
+    push = [c for c in f.calls() if not c.cleanup and c.matches('alloc::vec::Vec::push') and P.field('root', P.param('self'))(e.operand(c.args[1]))]
+    names = {(c.gshort or c.short or '?').rsplit('::', 1)[-1] for c in f.calls() if not c.cleanup}
+    ok = len(rows) == 3 and len(here) == 1 and len(none) == 1 and len(below) == 1 and len(push) == 1 and g.dominates(push[0].bb, below[0][0]) and \
+        not ({'skip', 'take', 'filter', 'rev', 'step_by', 'take_while', 'skip_while'} & names)
+    # the vec of the hit row holds the root
+    okroot = any((st.get('rv') or {}).get('agg') == 'array' and P.field('root', P.param('self'))(e.rvalue(st['rv'])[4][0][1]) for b in f.blocks for st in b['stmts'])
+    r = ex(prog, gc).local(0)
+    okc = P.call('*::collect', P.call('*::map', P.call('core::slice::iter', P.field('children', P.param('self'))), P.anything))(r) and \
+        any(P.field('root', P.param())(ex(prog, k).local(0)) for k in prog.children(gc))
+    okw = False
+    for k in prog.children(w):
+        v = ex(prog, k).local(0)
+        okw = okw or (P.agg(_0=P.agg(first=P.call('*::unwrap', P.call('*::pop', P.anything)), successors=P.anything), _1=P.anything)(v)
+                      and any(c.matches('*::reverse') and not c.cleanup for c in k.calls()))
+    ctx.check(ok and okroot and okc and okw, rule, 'chain-with-tip', f,
+              'get_chain_with_tip: depth-first over all children; the named block\'s chain from the root and all of its children as successors',
+              'get_chain_with_tip shape not recognised / changed (search ok=%s, root ok=%s, children ok=%s, wrapper ok=%s): %s' % (ok, okroot, okc, okw, describe_table(rows)))
